@@ -54,17 +54,34 @@ def runs_of(seq: list, enc: str, rng: random.Random | None) -> list[tuple[Any, i
     return [(a, b) for a, b in runs]
 
 
-def table_xml(state: dict, enc: str = "max", rng: random.Random | None = None, name: str = "T") -> str:
+def table_xml(state: dict, enc: str = "max", rng: random.Random | None = None, name: str = "T", groups=None) -> str:
+    """groups = (hc, hr): the first hc column runs are wrapped in table:table-header-columns and the first hr row
+    runs in table:table-header-rows (what LibreOffice writes for repeated heading rows / print titles).
+    With enc == 'rand' and groups None the grouping is drawn at random (none 2 times out of 3)."""
+    col_runs = runs_of(list(state["cols"]), enc, rng)
+    row_runs = runs_of([tuple(r) for r in state["rows"]], enc, rng)
+    if groups is None:
+        groups = (0, 0)
+        if enc == "rand" and rng is not None and rng.random() < 0.34:
+            groups = (rng.randint(0, len(col_runs)) if rng.random() < 0.5 else 0, rng.randint(0, len(row_runs)))
+    hc, hr = groups
     parts = [f'<table:table table:name="{name}">']
-    for c, n in runs_of(list(state["cols"]), enc, rng):
+    for i, (c, n) in enumerate(col_runs):
+        if hc and i == 0:
+            parts.append("<table:table-header-columns>")
         parts.append(col_xml(c, n))
-    rows = [tuple(r) for r in state["rows"]]
-    for r, n in runs_of(rows, enc, rng):
+        if hc and i == min(hc, len(col_runs)) - 1:
+            parts.append("</table:table-header-columns>")
+    for i, (r, n) in enumerate(row_runs):
+        if hr and i == 0:
+            parts.append("<table:table-header-rows>")
         rr = f' table:number-rows-repeated="{n}"' if n > 1 else ""
         parts.append(f"<table:table-row{rr}>")
         for c, k in runs_of(list(r), enc, rng):
             parts.append(cell_xml(c, k))
         parts.append("</table:table-row>")
+        if hr and i == min(hr, len(row_runs)) - 1:
+            parts.append("</table:table-header-rows>")
     parts.append("</table:table>")
     return "".join(parts)
 
